@@ -262,6 +262,13 @@ func runC08(c *core.Ctx) {
 	}
 	// the lock table is a plain Go map: a concurrent access is a fatal runtime error no recover() catches
 	checkValidationLocks(c, "C08-R3")
+	// the operator key cache holds only keys that parsed: a cached nil is dereferenced by the next message
+	k08 := atCalls(c, "C08-R3", mvPkg+".(*messageValidator).verifySignature", "github.com/cornelk/hashmap.Map.Set", []Req{
+		{"key-parsed", "ok(ssv/operator/keys.PublicKeyFromString(*))", "an operator key that failed to parse must not be cached: the next envelope naming that operator calls Verify on nil"},
+		{"operator-found", "T(ssv/registry/storage.Operators.GetOperatorData(p0.nodeStorage, nil, p2)#1)", ""},
+	})
+	c.Min("C08-R3", k08, 1, "operator key cache insertions")
+	checkDutyStoreLocks(c, "C08-R3")
 	c.Count("functions_scanned_for_crash_sites", len(funcs))
 	sites := enumerateCrashSites(c, funcs)
 	c.Count("crash_sites", len(sites))
@@ -678,4 +685,90 @@ func checkLeaderCallSites(c *core.Ctx, s crashSite, pos string) {
 	}
 	c.Min("C08-R1b", n, 1, "RoundRobinProposer call sites in validation")
 	c.OK("C08-R1b", s.key, pos, "signed arithmetic of the leader function: bounded at its validation call site(s); committee non-empty by registry invariant (trusted)")
+}
+
+// checkDutyStoreLocks: the duty stores are plain nested Go maps read by message validation
+// (validateBeaconDuty) while the scheduler writes them; every map read or write inside a method of
+// dutystore.Duties / SyncCommitteeDuties happens with the store's RWMutex taken and its release
+// deferred (an explicit early unlock leaves the inner maps unprotected: "concurrent map read and
+// map write" is a fatal error no recover() catches).
+func checkDutyStoreLocks(c *core.Ctx, rule string) {
+	pkg := ssv + "operator/duties/dutystore"
+	n := 0
+	fns := c.P.SourceFuncs(pkg)
+	// the methods of the generic Duties[D] are reached through their instantiations' origins
+	seenO := map[*ssa.Function]bool{}
+	for _, up := range []string{ssv + "operator/duties", mvPkg} {
+		for _, g := range c.P.SourceFuncs(up) {
+			for _, b := range g.Blocks {
+				for _, in := range b.Instrs {
+					ci, ok := in.(ssa.CallInstruction)
+					if !ok {
+						continue
+					}
+					cal := ci.Common().StaticCallee()
+					if cal == nil || cal.Origin() == nil {
+						continue
+					}
+					o := cal.Origin()
+					if o.Pkg != nil && o.Pkg.Pkg.Path() == pkg && !seenO[o] && len(o.Blocks) > 0 {
+						seenO[o] = true
+						fns = append(fns, o)
+					}
+				}
+			}
+		}
+	}
+	for _, f := range fns {
+		if f.Parent() != nil || f.Signature.Recv() == nil || (f.Synthetic != "" && !seenO[f]) {
+			continue
+		}
+		a := c.E.Analyze(f)
+		k := 0
+		bad := ""
+		explicit := ""
+		for _, b := range f.Blocks {
+			for _, in := range b.Instrs {
+				isMap := false
+				switch in := in.(type) {
+				case *ssa.Lookup:
+					_, isMap = in.X.Type().Underlying().(*types.Map)
+				case *ssa.MapUpdate:
+					isMap = true
+				case *ssa.Range:
+					_, isMap = in.X.Type().Underlying().(*types.Map)
+				case *ssa.Call:
+					if bi, ok := in.Call.Value.(*ssa.Builtin); ok && bi.Name() == "delete" {
+						isMap = true
+					}
+					if cal := in.Call.StaticCallee(); cal != nil && (cal.Name() == "Unlock" || cal.Name() == "RUnlock") && strings.HasPrefix(ens.SSAFuncName(cal), "sync.RWMutex.") {
+						explicit = c.P.Pos(in.Pos())
+					}
+				}
+				if !isMap {
+					continue
+				}
+				k++
+				fs := a.FactsAt(in)
+				_, r := fs.Has("deferred(sync.RWMutex.RUnlock(p0.mu))")
+				_, w := fs.Has("deferred(sync.RWMutex.Unlock(p0.mu))")
+				_, rl := fs.Has("called(sync.RWMutex.RLock(p0.mu))")
+				_, wl := fs.Has("called(sync.RWMutex.Lock(p0.mu))")
+				_, isWrite := in.(*ssa.MapUpdate)
+				if !((r && rl && !isWrite) || (w && wl)) && bad == "" {
+					bad = c.P.Pos(in.Pos())
+				}
+			}
+		}
+		if k == 0 {
+			continue
+		}
+		n++
+		name := enclName(f)
+		c.Decide(bad == "", rule, name+"|map accesses under the store lock", c.P.Pos(f.Pos()), fmt.Sprintf("%d map accesses, lock taken and release deferred", k),
+			"map access at "+bad+" in "+name+" without the store's lock taken and its release deferred (writes need the write lock)")
+		c.Decide(explicit == "", rule, name+"|no early unlock", c.P.Pos(f.Pos()), "release only deferred",
+			name+" releases the store lock explicitly at "+explicit+": the nested maps read after it race with the scheduler's writes")
+	}
+	c.Min(rule, n, 8, "dutystore methods touching the maps")
 }
